@@ -35,6 +35,7 @@ inductive NE
   | capsAbove (cs : Nat)        -- s->captures->count - cs.cap
   | lit (v : Nat)               -- a literal
   | succ (n : Nat)              -- n + 1   (`n++`)
+  | capIntAt (cs : Nat)         -- janet_unwrap_integer(s->captures->data[cs.cap]) as a loop bound (negative = 0 iterations)
   deriving Repr, DecidableEq
 
 /-- conditions of `if` -/
@@ -53,6 +54,8 @@ inductive Cond
   | ptrGtEnd (x : Nat)          -- `x > s->text_end`
   | opIs (n : Nat)              -- `rule[0] == RULE_x` (n = the opcode number)
   | numLtWordPred (n : Nat) (w : WE) -- `n < w - 1`
+  | numLtNum (a b : Nat)        -- `a < b` (numeric locals)
+  | lenCapBad (cs : Nat)        -- `count - cs.cap <= 0 || !janet_checkint(s->captures->data[cs.cap])`
   | not (c : Cond)
   | and (a b : Cond)
   | or (a b : Cond)
@@ -138,6 +141,7 @@ def evalNE (L : Loc) (s : St) : NE → Nat
   | .capsAbove c => s.caps.length - (L.cs c).cap
   | .lit v => v
   | .succ n => L.num n + 1
+  | .capIntAt c => match s.caps[(L.cs c).cap]? with | some (.int n) => n.toNat | _ => 0
 
 def evalCond (E : Env) (O : Operands ρ) (L : Loc) (s : St) : Cond → Bool
   | .isNull x => (L.ptr x).isNone
@@ -154,6 +158,11 @@ def evalCond (E : Env) (O : Operands ρ) (L : Loc) (s : St) : Cond → Bool
   | .ptrGtEnd x => match L.ptr x with | some p => decide (p > s.textEnd) | none => false
   | .opIs n => O.word 0 == n
   | .numLtWordPred n w => decide (L.num n < evalWE O w - 1)
+  | .numLtNum a b => decide (L.num a < L.num b)
+  | .lenCapBad c =>
+    match (s.caps.drop (L.cs c).cap).head? with
+    | some (.int n) => !checkint n
+    | _ => true
   | .not c => !evalCond E O L s c
   | .and a b => evalCond E O L s a && evalCond E O L s b
   | .or a b => evalCond E O L s a || evalCond E O L s b
